@@ -1316,6 +1316,9 @@ def _tag_is(*names):
 
 KNOWN_MATCHERS = {
     "c1_nonchar_reference": _tag_is("c1-nonchar-reference"),
+    # open finding C08-autodetect-misled-by-other-bytes: only failures tagged autodetect-misled, of one of the four classes, for
+    # which the named hypothesis of C08_autodetect_declared really fails on the encoded bytes (re-evaluated in Python)
+    "autodetect_misled": cd.known_misled,
     "undelimited_charset_parameter": lambda f: f.get("tag") == "meta-content-undelimited" or (
         f.get("tag") == "meta-content-subst" and undelimited((f.get("case") or {}).get("original", ""))),
 }
@@ -1328,6 +1331,8 @@ def replay_known(ctx, k):
         b = soup.encode("ascii")
         s2 = parse_str(b.decode("ascii"))
         return s2.p.get_text() != "x\x96y"
+    if k.get("matcher") == "autodetect_misled":
+        return cd.misled_witness_still_fails()
     if k.get("matcher") == "undelimited_charset_parameter":
         soup = build_doc(KNOWN_WITNESS_DOCS["undelimited"])
         b = soup.encode("utf-8")
